@@ -1089,6 +1089,14 @@ def gen_protocol_program(seed):
             field = [{'t': 'try', 'b': field, 'handles': ['outofspace'],
                       'h': [inc, {'t': 'wait', 'm': {'k': 'str', 'bytes': [59]}}, {'t': 'delete', 'var': 's'}]}]
         body = [{'t': 'loop', 'name': None, 'b': field + [{'t': 'hook', 'n': 'h'}] + ([{'t': 'delete', 'var': 's'}] if r.random() < 0.5 else [])}]
+    if r.random() < 0.2:
+        # a parser that ends right after a yield (the yield may sit on the transition that consumes the last byte): DONE must
+        # still be reported, with the pointer on the last byte read
+        tail = r.choice([[{'t': 'yield', 'code': r.choice(ycodes)}], [inc, {'t': 'yield', 'code': r.choice(ycodes)}],
+                         [{'t': 'yield', 'code': r.choice(ycodes)}, {'t': 'yield', 'code': r.choice(ycodes)}], [{'t': 'hook', 'n': 'h'}, {'t': 'yield', 'code': r.choice(ycodes)}, inc]])
+        body = [{'t': 'match', 'm': {'k': 'str', 'bytes': [r.choice(A) for _ in range(r.randint(1, 3))]}}] + tail
+        if r.random() < 0.4:
+            body = [{'t': 'match', 'm': {'k': 'str', 'bytes': [r.choice(b'pq')]}}, {'t': 'yield', 'code': r.choice(ycodes)}] + body
     p = {'outs': outs, 'hooks': ['h'], 'fcodes': fcodes, 'ycodes': ycodes, 'macros': [], 'body': body, 'args': ['-fyield-support']}
     return p, spell_program(p)
 
@@ -1464,9 +1472,25 @@ def gen_zp_program(seed):
     lit = lambda b: {'t': 'match', 'm': {'k': 'str', 'bytes': [b]}}
     anyb = {'t': 'match', 'm': {'k': 're', 'r': {'k': 'any'}, 'bin': False}}
     safe = r.random() < 0.45
-    shape = r.randrange(7)
+    shape = r.randrange(8)
     uses_yield = False
-    if shape == 6:
+    if shape == 7:
+        # several consecutive constructs that may each complete without consuming (tries with empty handlers, optionals,
+        # nullable regexes) with different first bytes: the no-progress cycle passes through states with different alphabets
+        def skippable(b1, b2):
+            k = r.randrange(3)
+            if k == 0:
+                return {'t': 'try', 'b': [lit(b1), lit(b2)], 'handles': r.choice([None, ['nomatch']]), 'h': []}
+            if k == 1:
+                return {'t': 'opt', 'b': [lit(b1), lit(b2)]}
+            return {'t': 'match', 'm': {'k': 're', 'r': {'k': 'opt', 'c': {'k': 'seq', 'c': [{'k': 'ch', 'c': b1}, {'k': 'ch', 'c': b2}]}}, 'bin': False}}
+        b = [skippable(97, 98), skippable(59, 44)]
+        if r.random() < 0.3:
+            b.append(skippable(44, 97))
+        if safe:
+            b.append(lit(33))
+        body = [{'t': 'loop', 'name': None, 'b': b}]
+    elif shape == 6:
         # a case with an inverted-set clause: the else clause only ever receives the few excluded bytes that no other clause
         # takes, so a cycle through an empty else exists for those bytes only
         ex = r.sample(A, 3)
